@@ -361,6 +361,36 @@ func c19Case(c *hx.Ctx, r *hx.RNG, idx int64) {
 				return
 			}
 			c.Eval(r.U64(), true, "op/SetMode")
+		case op < 80:
+			// A Context is a value: a copy is a context of its own. A NaN met by the copy is the copy's business - the
+			// original neither turns into a no-op machine nor hands out the copy's error.
+			note("copy of the context, 0/0 in the copy")
+			c.Eval(r.U64(), true, "op/copy")
+			hi := cx
+			hz := new(decimal.Decimal)
+			zero := new(decimal.Decimal)
+			if pi := hx.Try(func() { hi.Quo(hz, zero, zero) }); pi != nil {
+				bad("panic-escaped", "Quo(0, 0) in a copy of the context: %s panic %q", pi.Class, pi.Text)
+				return
+			}
+			if !m.latched {
+				// (the original first: the copy's error is still pending)
+				if e := cx.Err(); e != nil {
+					bad("spurious-error", "Err() of the original returned %v after a NaN in a copy of the context", e)
+					return
+				}
+				one, z2 := new(decimal.Decimal).SetInt64(1), new(decimal.Decimal)
+				cx.Neg(z2, one)
+				if z2.Cmp(one) == 0 || z2.Sign() != -1 {
+					bad("latched-by-a-copy", "after a NaN in a copy of the context the original's Neg(1) left the receiver at %s", hx.RawOf(z2))
+					return
+				}
+				if _, isNaN := hi.Err().(decimal.ErrNaN); !isNaN {
+					bad("wrong-error", "a copy of an unlatched context did not keep the ErrNaN of its own 0/0")
+					return
+				}
+				c.Count("context_copies_checked", 1)
+			}
 		default: // factories
 			var z *decimal.Decimal
 			var o oracle.Outcome
